@@ -203,9 +203,38 @@ fn bvh_cases(cw: &mut CaseWriter, seed: u64, n_sets: usize) {
                     k += 1;
                 }
                 Err(mpsc::RecvTimeoutError::Timeout) => {
-                    // the build of set k does not terminate (or the worker died)
-                    let set = gen_bvh_set(seed, k);
-                    cw.write(bvh_case_json(&set, json!({"outcome": "timeout"})));
+                    // the build of set k does not terminate — or the machine is busy: the set is a hang only if it also
+                    // exceeds a minute in a worker of its own
+                    let _ = child.kill();
+                    let alone = Command::new(&exe)
+                        .args(["c13", "--seed", &seed.to_string(), "--bvh-worker", &k.to_string(), "--bvh-to", &(k + 1).to_string()])
+                        .stdout(Stdio::piped())
+                        .stderr(Stdio::null())
+                        .spawn();
+                    let mut answered = false;
+                    if let Ok(mut c2) = alone {
+                        let so = c2.stdout.take().unwrap();
+                        let (t2, r2) = mpsc::channel::<String>();
+                        std::thread::spawn(move || {
+                            for line in std::io::BufReader::new(so).lines().map_while(Result::ok) {
+                                if let Some(rest) = line.strip_prefix("BVHCASE ") {
+                                    if t2.send(rest.to_string()).is_err() {
+                                        break;
+                                    }
+                                }
+                            }
+                        });
+                        if let Ok(line) = r2.recv_timeout(Duration::from_secs(60)) {
+                            cw.write(serde_json::from_str(&line).unwrap());
+                            answered = true;
+                        }
+                        let _ = c2.kill();
+                        let _ = c2.wait();
+                    }
+                    if !answered {
+                        let set = gen_bvh_set(seed, k);
+                        cw.write(bvh_case_json(&set, json!({"outcome": "timeout"})));
+                    }
                     k += 1;
                     break;
                 }
